@@ -325,7 +325,7 @@ def native_run(info, env, ignore_points=False):
 
 
 def _witness(eng, acc, info, anoms, scores, cap=40, cols=None):
-    if acc.c.get("witness_tried", 0) >= cap:
+    if acc.total("witness_tried") >= cap:
         return
     acc.inc("witness_tried")
     model, _ = robust_model(eng)
